@@ -1,6 +1,6 @@
 """C20 — the role of each input file depends only on its extension and argument order."""
 from ..facts import AnalysisGap, callee, callee_generic, ctor_of, local_of, strip, walk
-from .. import hq
+from .. import hq, sym
 
 EXPLANATION = (
     "Static rules over the typed HIR of command_line/files.rs and the Verify arm of command_line::procedures::main. "
@@ -97,7 +97,17 @@ def rule_ext_table(ctx):
     elem = ("each", o["nest"][-1]) if o["nest"] else None
     entry = ("try", elem)
     ctx.add("TAB-EXT", "pushed-path", path == ("call", "DirEntry::into_path", (entry,)), site, "the pushed path is the path of the walked entry: %s" % sym.pretty(path)[:160])
-    ctx.add("TAB-EXT", "files-only", o["conds"] == [(("call", "FileType::is_file", (("call", "DirEntry::file_type", (entry,)),)), True)], site,
+    from .. import leaves as _lv
+
+    def facts_of(conds):
+        out = []
+        for c, pol in conds:
+            r = _lv.cond_tests(c, pol)
+            if r is False:
+                return None
+            out += [t[1] if t[0] == "survived" else t for t in r]
+        return sorted(set(out), key=_lv.stable_key)
+    ctx.add("TAB-EXT", "files-only", facts_of([c_[:2] for c_ in o["conds"]]) == [("cond", _lv.norm(("call", "FileType::is_file", (("call", "DirEntry::file_type", (entry,)),))), True)], site,
             "the only condition on bucketing an entry is that it is a regular file: %s" % [sym.pretty(c)[:100] for c, _ in o["conds"]])
     ctx.add("FLOW-ERR", "Files::sort:walkdir-error", entry in set(sym.subterms(path)), site, "walkdir errors are propagated with `?` before the entry is used")
     ctx.count("ext_arms", len(lv))
@@ -223,6 +233,30 @@ def parser_types(e, body=None):
     return out
 
 
+def _either_tag(fx, arm):
+    """the Either tag the value of a match arm carries: `Either::Left(parse(p)?)`, `parse(p).map(Either::Left)` (with or without `?`) .."""
+    ev = sym.Eval(fx, inline_depth=0)
+    env = {}
+    ev.bind_pat(arm["pat"], ("param", "$scrutinee"), env)
+    t = ev.expr(arm["body"], env, 0)
+    for _ in range(4):
+        if isinstance(t, tuple) and t[:1] == ("try",) and len(t) == 2:
+            t = t[1]
+        elif isinstance(t, tuple) and t[:2] == ("ctor", "Result::Ok") and t[2]:
+            t = t[2][0][1]
+        else:
+            break
+    if isinstance(t, tuple) and t[:1] == ("ctor",) and t[1].startswith("Either::"):
+        return t[1].split("::")[1]
+    if isinstance(t, tuple) and t[:2] in (("call", "Result::map"), ("call", "Option::map")) and len(t[2]) == 2:
+        f = t[2][1]
+        if f[:1] == ("ctorfn",) and f[1].startswith("Either::"):
+            return f[1].split("::")[1]
+        if f[:1] == ("closure",) and isinstance(f[2], tuple) and f[2][:1] == ("ctor",) and f[2][1].startswith("Either::"):
+            return f[2][1].split("::")[1]
+    return None
+
+
 def rule_flow_roles(ctx):
     fx = ctx.facts
     b = fx.fn("command_line::procedures::main")
@@ -258,8 +292,7 @@ def rule_flow_roles(ctx):
                     for a in m["arms"]:
                         pk = hq.pat_key(a["pat"])
                         body = strip(a["body"])
-                        c = ctor_of(body)
-                        rows.append((pk, c[1] if c else None, sorted(parser_types(body))))
+                        rows.append((pk, _either_tag(fx, a), sorted(parser_types(body))))
                     detail.append(rows)
                     if sorted(rows) == sorted([("Either::Left(_)", "Left", ["Program"]), ("Either::Right(_)", "Right", ["Specification"])]):
                         ok = True
